@@ -1,6 +1,6 @@
 SPECIFICATION Spec
-CONSTANT Names = {"x", "y"}
-CONSTANT NameSeq <- Seq2
+CONSTANT Names = {"x", "y", "__class__"}
+CONSTANT NameSeq <- Seq2C
 CONSTANT MaxScopes = 6
 CONSTANT MaxDepth = 3
 CONSTANT MaxEvStmt = 6
